@@ -1,4 +1,5 @@
-"""C18 - lazy (virtual) and partitioned arrays are indistinguishable from the eager array (lane L).
+"""C18 - lazy (virtual) and partitioned arrays are indistinguishable from the eager array (lane L; one case in seven
+on lane P: ak.partitioned / ak.repartition / ak.virtual against the eager twin, checks/pstreams.py).
 
 Doubles: the bridge supplies an ArrayGenerator and an ArrayCache whose behaviour is scripted by the harness and
 whose every call is journalled (vlib/bridge_virtual.py).  Streams:
@@ -33,7 +34,9 @@ PROPERTY = "C18"
 LEVEL = "fault_enumeration"
 RULE = ("lazy: (layout, wrapped node, declared form/length, cache policy, key, prefix, 1-4 operations); enforce: "
         "(layout, wrapped node, fault script in {fail-then-ok, short, other-form, ok-then-short, longer}, cache policy); "
-        "part: (values, split, per-partition encodings, probes); non-trivial = the generator was called at least once "
+        "part: (values, split, per-partition encodings, probes); lane-P (1 case in 7): (values, partitioning or ak.virtual "
+        "configuration {declared form/length, cache kind, generator fault}, 1-3 catalogue operations) compared with the "
+        "eager twin; non-trivial = the generator was called at least once "
         "(lazy/enforce) / the array has length > 0 and more than one partition (part); distinct = SHA-1 of the case "
         "descriptor; reducers and sorts are restricted to the innermost axis (outer axes crash on ragged data - "
         "known finding F10 - before any comparison could be made)")
